@@ -61,6 +61,9 @@ func VerifC09RemovedStaysRemoved() {
 		}
 	}
 
+	// a resynchronisation while both blobs are still there (either order of them)
+	resync("BeforeTheFirstGC")
+
 	// GC at the current epoch: removes the tombstoned object (metadata, then blob)
 	blob.deleteFails = vrt.Bool("blobDeletionFails")
 	blob.crashy = true
